@@ -231,26 +231,46 @@ Proof.
 Qed.
 
 (* ---- tree_of ---- *)
-Lemma tree_of_denotes ns : forall t p fuel, denotes ns p t -> size t <= fuel ->
-  tree_of fuel ns 0 (nid t) = Some (erase t).
+(* token indices moved by the number of tokens trimmed at the front *)
+Fixpoint shift_rtree (a : nat) (t : rtree) : rtree :=
+  match t with
+  | RAtom d k => RAtom d (k + a)
+  | RPre d k x => RPre d (k + a) (shift_rtree a x)
+  | RSuf d k x => RSuf d (k + a) (shift_rtree a x)
+  | RBin d k l r => RBin d (option_map (fun j => j + a) k) (shift_rtree a l) (shift_rtree a r)
+  | RGroup k x => RGroup (k + a) (shift_rtree a x)
+  end.
+
+Lemma shift_rtree_0 t : shift_rtree 0 t = t.
+Proof.
+  induction t as [d k|d k x IH|d k x IH|d k l IHl r IHr|k x IH]; simpl; rewrite ?Nat.add_0_r, ?IH, ?IHl, ?IHr; auto.
+  destruct k; simpl; rewrite ?Nat.add_0_r; reflexivity.
+Qed.
+
+Lemma tree_of_denotes_off ns off : forall t p fuel, denotes ns p t -> size t <= fuel ->
+  tree_of fuel ns off (nid t) = Some (shift_rtree off (erase t)).
 Proof.
   induction t as [i d k|i d k a IH|i d k a IH|i d k l IHl r IHr|i k a IH]; intros p fuel D Hf;
     (destruct fuel as [|fuel]; [simpl in Hf; lia|]); simpl in D, Hf; destruct D as (n & Hn & A);
-    cbn [tree_of nid erase]; rewrite Hn.
-  - destruct A as (A1 & A2 & A3 & A4 & A5 & A6 & A7). rewrite A5, A6, A7, A2, Nat.add_0_r.
+    cbn [tree_of nid erase shift_rtree]; rewrite Hn.
+  - destruct A as (A1 & A2 & A3 & A4 & A5 & A6 & A7). rewrite A5, A6, A7, A2.
     destruct (n_sec n); try discriminate; reflexivity.
-  - destruct A as (A1 & A2 & A3 & A4 & A5 & A6 & A7). rewrite A1, A4, A5, A6, A2, Nat.add_0_r.
+  - destruct A as (A1 & A2 & A3 & A4 & A5 & A6 & A7). rewrite A1, A4, A5, A6, A2.
     rewrite (IH (Some i) fuel A7) by lia. reflexivity.
-  - destruct A as (A1 & A2 & A3 & A4 & A5 & A6 & A7). rewrite A1, A4, A5, A6, A2, Nat.add_0_r.
+  - destruct A as (A1 & A2 & A3 & A4 & A5 & A6 & A7). rewrite A1, A4, A5, A6, A2.
     rewrite (IH (Some i) fuel A7) by lia. reflexivity.
   - destruct A as ([A0 A1] & A2 & A3 & A4 & A5 & A6). rewrite A3, A4.
     rewrite (IHl (Some i) fuel A5) by lia. rewrite (IHr (Some i) fuel A6) by lia.
     destruct A1 as [(B1 & tk & -> & B2)|(B1 & -> & ->)].
-    + rewrite B2, A0, Nat.add_0_r. destruct (n_sec n); try discriminate; reflexivity.
+    + rewrite B2, A0. destruct (n_sec n); try discriminate; reflexivity.
     + rewrite B1, A0. reflexivity.
-  - destruct A as (A1 & A2 & A3 & A4 & A5 & A6 & A7). rewrite A1, A2, A4, A5, A6, Nat.add_0_r.
+  - destruct A as (A1 & A2 & A3 & A4 & A5 & A6 & A7). rewrite A1, A2, A4, A5, A6.
     rewrite (IH (Some i) fuel A7) by lia. reflexivity.
 Qed.
+
+Lemma tree_of_denotes ns t p fuel : denotes ns p t -> size t <= fuel ->
+  tree_of fuel ns 0 (nid t) = Some (erase t).
+Proof. intros D Hf. rewrite (tree_of_denotes_off ns 0 t p fuel D Hf), shift_rtree_0. reflexivity. Qed.
 
 (* ---- find_root ---- *)
 Lemma find_root_climb ns : forall t p, denotes ns p t ->
